@@ -403,8 +403,8 @@ theorem exStmObjs_simple : ∀ o ∈ exStmObjs, SimpleObj o := by
   intro o ho
   simp only [exStmObjs, List.mem_cons, List.mem_nil_iff, or_false] at ho
   rcases ho with rfl | rfl
-  · exact ⟨wsRun_of_ws _ (by decide), by decide, by decide, .int 7, rfl, by simp [wf], trivial⟩
-  · exact ⟨wsRun_of_ws _ (by decide), by decide, by decide, .name [67, 97, 116], rfl, by simp [wf, okKey], trivial⟩
+  · exact SimpleObj.of_scalar (wsRun_of_ws _ (by decide)) (by decide) (by decide) (.int 7) rfl (by simp [wf]) trivial
+  · exact SimpleObj.of_scalar (wsRun_of_ws _ (by decide)) (by decide) (by decide) (.name [67, 97, 116]) rfl (by simp [wf, okKey]) trivial
 
 theorem exStmRev_simple : SimpleRevX exStmRev where
   kind := rfl
